@@ -281,34 +281,50 @@ def _shard_entry(args):
 
 
 def _replay_entry(args):
-    prop, case = args
+    """Replays a list of cases that share one configuration; returns one hit list per case."""
+    prop, cases = args
     try:
         import importlib
         mod = importlib.import_module(f'checks.{prop.lower()}')
-        overrides = case.get('config') if isinstance(case, dict) else None
+        overrides = cases[0].get('config') if isinstance(cases[0], dict) else None
         cfgdir = env.make_config_dir(overrides)
         import atexit, shutil
         atexit.register(shutil.rmtree, cfgdir, True)
         env.bootstrap(cfgdir)
-        col = Collector(prop, 'quick', 0, replay_mode=True)
-        col.config = overrides
-        env.clear_caches()
-        mod.replay(col, case)
-        return {'hits': col.replay_hits}
+        outs = []
+        for case in cases:
+            col = Collector(prop, 'quick', 0, replay_mode=True)
+            col.config = overrides
+            env.clear_caches()
+            mod.replay(col, case)
+            outs.append(col.replay_hits)
+        return {'hits': outs}
     except BaseException as e:
         return {'harness_error': f"{type(e).__name__}: {e}", 'traceback': traceback.format_exc()}
 
 
-def replay_case(prop, case):
-    """Re-execute one saved case through the check's plain executor (no Hypothesis), in a fresh process
-    (the configuration a case needs is fixed at import time of pyplate). Returns list of hits."""
+def replay_cases(prop, cases):
+    """Re-execute saved cases through the check's plain executor (no Hypothesis), in fresh processes (the
+    configuration a case needs is fixed at import time of pyplate). Returns one list of hits per case."""
     import multiprocessing as mp
-    with mp.get_context('spawn').Pool(1) as pool:
-        out = pool.map(_replay_entry, [(prop, case)])[0]
-    if 'harness_error' in out:
-        sys.stderr.write(out['traceback'])
-        raise HarnessError(out['harness_error'])
-    return out['hits']
+    groups = {}
+    for i, c in enumerate(cases):
+        key = json.dumps(c.get('config') if isinstance(c, dict) else None, sort_keys=True, default=str)
+        groups.setdefault(key, []).append(i)
+    result = [None] * len(cases)
+    with mp.get_context('spawn').Pool(min(4, max(1, len(groups)))) as pool:
+        outs = pool.map(_replay_entry, [(prop, [cases[i] for i in idx]) for idx in groups.values()])
+    for idx, out in zip(groups.values(), outs):
+        if 'harness_error' in out:
+            sys.stderr.write(out['traceback'])
+            raise HarnessError(out['harness_error'])
+        for i, h in zip(idx, out['hits']):
+            result[i] = h
+    return result
+
+
+def replay_case(prop, case):
+    return replay_cases(prop, [case])[0]
 
 
 def sanitize(sig):
@@ -388,6 +404,28 @@ def run_check(prop, tier, seed):
         if still:
             print(f"KNOWN-FINDING: property={prop} {o['text']}")
 
+    # regression tier: saved minimal inputs of repaired findings must stay quiet (replayed without Hypothesis)
+    import glob
+    reg_files = sorted(glob.glob(os.path.join(env.VERIF_DIR, 'regressions', prop, '*.json')))
+    reg_report = {'files': len(reg_files), 'reproducing': 0}
+    if reg_files:
+        bodies = []
+        for rf in reg_files:
+            with open(rf) as f:
+                bodies.append(json.load(f))
+        try:
+            hits_list = replay_cases(prop, [b['case'] for b in bodies])
+        except HarnessError as e:
+            print(f"HARNESS-ERROR property={prop} regression replay failed: {e}")
+            return 2
+        for rf, b, hits in zip(reg_files, bodies, hits_list):
+            for h in hits:
+                if h['sig'] in known_sigs:
+                    continue
+                reg_report['reproducing'] += 1
+                if h['sig'] not in violations:
+                    violations[h['sig']] = {'sig': h['sig'], 'detail': h['detail'], 'case': b['case']}
+
     # write replays
     vio_out = []
     for sig, v in sorted(violations.items()):
@@ -413,6 +451,7 @@ def run_check(prop, tier, seed):
         'excluded_by_generator': dict(excluded),
         'excluded_known': {sig: k['count'] for sig, k in known.items()},
         'known_findings': known_report,
+        'regression_replays': reg_report,
         'shards': nshards,
     }
     if enumerated:
